@@ -379,11 +379,9 @@ func isEmptyGuardPanic(info *types.Info, fd *ast.FuncDecl, call *ast.CallExpr) b
 		if !ok || !(ifs.Body.Pos() <= call.Pos() && call.End() <= ifs.Body.End()) {
 			return true
 		}
-		be, ok := ast.Unparen(ifs.Cond).(*ast.BinaryExpr)
-		if ok && be.Op == token.EQL {
-			if tv, ok := info.Types[be.Y]; ok && tv.Value != nil && tv.Value.ExactString() == "0" {
-				res = true
-			}
+		cf := cfgx.New(fd.Body, info)
+		if _, _, empty := lenFactR(info, cfgx.Fact{Expr: ifs.Cond, Truth: true}, cf.Resolve); empty {
+			res = true
 		}
 		return true
 	})
@@ -446,32 +444,95 @@ func (c *Ctx) shiftGuarded(cs callSite) bool {
 	info := cs.Pk.TypesInfo
 	cf := c.CFG(cs.Pk, cs.Body)
 	gen := func(fa cfgx.Fact) bool {
-		be, ok := ast.Unparen(fa.Expr).(*ast.BinaryExpr)
-		if !ok {
-			return false
-		}
-		if _, ok := lengthExpr(info, be.X); !ok {
-			return false
-		}
-		tv, ok := info.Types[be.Y]
-		if !ok || tv.Value == nil || tv.Value.ExactString() != "0" {
-			return false
-		}
-		return (be.Op == token.NEQ && fa.Truth) || (be.Op == token.EQL && !fa.Truth) || (be.Op == token.GTR && fa.Truth)
+		_, nonEmpty, _ := lenFact(info, fa)
+		return nonEmpty
 	}
 	if cf.MustAt(cs.Call, gen, nil, nil) {
 		return true
 	}
-	// directly in the body of `for range q`
+	// a drain loop: `for range q` or `for n := len(q); n > 0; n--` whose body shifts exactly
+	// once per iteration (the call is not nested in an inner loop and is the only call of
+	// the shift function in the body): the queue holds at least as many elements as there
+	// are iterations left, whatever else the body appends
+	shift := Callee(info, cs.Call)
 	ok := false
 	ast.Inspect(cs.Body, func(n ast.Node) bool {
-		rs, isRange := n.(*ast.RangeStmt)
-		if isRange && rs.Key == nil && rs.Value == nil && rs.Body.Pos() <= cs.Call.Pos() && cs.Call.End() <= rs.Body.End() {
+		var body *ast.BlockStmt
+		switch l := n.(type) {
+		case *ast.RangeStmt:
+			if l.Key == nil && l.Value == nil {
+				body = l.Body
+			}
+		case *ast.ForStmt:
+			if isCountdownOverLen(info, l) {
+				body = l.Body
+			}
+		}
+		if body == nil || !(body.Pos() <= cs.Call.Pos() && cs.Call.End() <= body.End()) {
+			return true
+		}
+		shifts, nested := 0, false
+		ast.Inspect(body, func(y ast.Node) bool {
+			switch z := y.(type) {
+			case *ast.ForStmt:
+				if z.Pos() <= cs.Call.Pos() && cs.Call.End() <= z.End() {
+					nested = true
+				}
+			case *ast.RangeStmt:
+				if z.Pos() <= cs.Call.Pos() && cs.Call.End() <= z.End() {
+					nested = true
+				}
+			case *ast.CallExpr:
+				if Callee(info, z) == shift {
+					shifts++
+				}
+			}
+			return true
+		})
+		if shifts == 1 && !nested {
 			ok = true
 		}
 		return true
 	})
 	return ok
+}
+
+// isCountdownOverLen: for n := len(q); n > 0; n-- { body does not assign n }.
+func isCountdownOverLen(info *types.Info, l *ast.ForStmt) bool {
+	init, ok := l.Init.(*ast.AssignStmt)
+	if !ok || len(init.Lhs) != 1 || len(init.Rhs) != 1 {
+		return false
+	}
+	id, ok := init.Lhs[0].(*ast.Ident)
+	if !ok {
+		return false
+	}
+	if _, isLen := lengthExpr(info, init.Rhs[0]); !isLen {
+		return false
+	}
+	obj := info.ObjectOf(id)
+	cond, ok := ast.Unparen(l.Cond).(*ast.BinaryExpr)
+	if !ok {
+		return false
+	}
+	isN := func(e ast.Expr) bool {
+		x, ok := ast.Unparen(e).(*ast.Ident)
+		return ok && info.ObjectOf(x) == obj
+	}
+	isConst := func(e ast.Expr, v string) bool {
+		tv, ok := info.Types[e]
+		return ok && tv.Value != nil && tv.Value.ExactString() == v
+	}
+	condOK := (isN(cond.X) && ((cond.Op == token.GTR && isConst(cond.Y, "0")) || (cond.Op == token.NEQ && isConst(cond.Y, "0")) || (cond.Op == token.GEQ && isConst(cond.Y, "1")))) ||
+		(isN(cond.Y) && ((cond.Op == token.LSS && isConst(cond.X, "0")) || (cond.Op == token.LEQ && isConst(cond.X, "1"))))
+	if !condOK {
+		return false
+	}
+	post, ok := l.Post.(*ast.IncDecStmt)
+	if !ok || post.Tok != token.DEC || !isN(post.X) {
+		return false
+	}
+	return !assignedAnywhere(info, l.Body, obj)
 }
 
 // callersOutside returns a description of a caller of f (transitively through
